@@ -57,6 +57,48 @@ example :
     sceneGeoms r.1 = [some 10, some 31] ∧ r.1.status = true ∧ r.1.nwarn = 1 ∧ r.2 = true := by
   simp [run, attempt, overflow, write, sceneGeoms, List.range_succ]
 
+/-! ### a concrete instance used by the non-vacuity examples below -/
+namespace Example
+
+/-- a toy numeric instance (integers; the transcendental functions are dummies): only used to exhibit concrete
+instances of the hypotheses — the theorems are generic in the numeric type and in the conversions -/
+instance toyNum : MjNum Int where
+  ofInt := id
+  ofSci := fun m _ _ => m
+  decLt := inferInstance
+  decLe := inferInstance
+  beq := fun a b => a == b
+  sqrt := id
+  sin := id
+  cos := id
+  tan := id
+  asin := id
+  acos := id
+  atan2 := fun a _ => a
+  exp := id
+  log := id
+  abs := fun x => (x.natAbs : Int)
+  floor := id
+  ceil := id
+  isNaN := fun _ => false
+
+def cv : Conv Int Int :=
+  { n2f := id, f2n := id, round := id, fadd := (· + ·), fmul := (· * ·), fzero := fun x => x == 0 }
+/-- a dynamic unit sphere in group `grp` with alpha `a` -/
+def sphere (grp : Int) (a : Int) : GeomIn Int Int :=
+  { type := GEOM_SPHERE, group := grp, isStatic := false, dataid := -1, size := #v[1, 0, 0], xpos := #v[0, 0, 1],
+    xmat := #v[1, 0, 0, 0, 1, 0, 0, 0, 1], rgba := #v[5, 5, 5, a] }
+def opt : Opt := { catmask := 7, visStatic := true, visTransparent := false, geomgroup := #v[true, true, true, false, false, false] }
+def env : Env Int Int := { alpha := 3, zfar := 50, extent := 1, cam0 := #v[0, 0, 0], cam1 := #v[0, 0, 0] }
+/-- groups 0, 7 (clamped to 5: disabled), 1 with alpha 0 (acquired, not shown), -2 (clamped to 0) -/
+def geoms : List (GeomIn Int Int) := [sphere 0 1, sphere 7 1, sphere 1 0, sphere (-2) 1]
+
+theorem shown_two : (shown cv opt env (annotate 0 (-1) geoms)).length = 2 := by decide
+theorem acquiring_three : (acquiring opt (annotate 0 (-1) geoms)).length = 3 := by decide
+theorem no_infinite_plane : ∀ g ∈ geoms, infinitePlane g = false := by decide
+
+end Example
+
 section pass
 variable {α β : Type} [MjNum α]
 
@@ -133,6 +175,11 @@ theorem overflow_reported (cv : Conv α β) (o : Opt) (env : Env α β) (geoms :
   rw [List.count_eq_countP, List.countP_map, List.countP_eq_length_filter]
   simpa [Function.comp_def] using h
 
+/-- instance: 2 shown geoms, capacity 1 -/
+example : ({ maxgeom := 1, ngeom := 9, status := false, nwarn := 0, mem := fun _ => none } : Scn (VGeom Int)).maxgeom <
+    (shown Example.cv Example.opt Example.env (annotate 0 (-1) Example.geoms)).length := by
+  rw [Example.shown_two]; decide
+
 /-- everything that reaches `acquireGeom` fits ⇒ nothing is dropped and the status flag is untouched -/
 theorem complete_when_fits (cv : Conv α β) (o : Opt) (env : Env α β) (geoms : List (GeomIn α β)) (s : Scn (VGeom β))
     (h : (acquiring o (annotate 0 (-1) geoms)).length ≤ s.maxgeom) :
@@ -146,6 +193,11 @@ theorem complete_when_fits (cv : Conv α β) (o : Opt) (env : Env α β) (geoms 
   · rw [geom_only_scene_eq_filter, List.take_of_length_le]
     rw [shown_eq_filter_acquiring]
     exact Nat.le_trans (List.length_filter_le _ _) h
+
+/-- instance: 3 acquiring geoms (one of them invisible), capacity 3 -/
+example : (acquiring Example.opt (annotate 0 (-1) Example.geoms)).length ≤
+    ({ maxgeom := 3, ngeom := 0, status := true, nwarn := 0, mem := fun _ => none } : Scn (VGeom Int)).maxgeom := by
+  rw [Example.acquiring_three]; decide
 
 /-- the group filter reads `geomgroup` at the clamped group: negative groups use entry 0, groups ≥ 6 entry 5 -/
 theorem clampGroup_spec (g : Int) :
@@ -223,6 +275,14 @@ theorem updateScene_history_independent (cv : Conv α β) (o : Opt) (env env' : 
   simp only [shown, List.mem_filter] at ht'
   obtain ⟨_, hidx⟩ := annotate_mem 0 (-1) geoms t ht'.1
   exact hplane _ (List.mem_of_getElem? hidx)
+
+/-- instance of the hypotheses of `updateScene_history_independent`: two scenes of capacity 2 with different
+contents, status and previous cameras; no geom of the model is an infinite plane -/
+example : ∃ (s s' : Scn (VGeom Int)) (e e' : Env Int Int), s.maxgeom = s'.maxgeom ∧ s.status ≠ s'.status ∧ s.ngeom ≠ s'.ngeom ∧
+    e.cam0 ≠ e'.cam0 ∧ e.alpha = e'.alpha ∧ ∀ g ∈ Example.geoms, infinitePlane g = false :=
+  ⟨{ maxgeom := 2, ngeom := 2, status := true, nwarn := 1, mem := fun _ => none },
+   { maxgeom := 2, ngeom := 0, status := false, nwarn := 0, mem := fun _ => none },
+   Example.env, { Example.env with cam0 := #v[4, 5, 6] }, rfl, by decide, by decide, by decide, rfl, Example.no_infinite_plane⟩
 
 end pass
 
